@@ -290,6 +290,11 @@ def rule_c(rep: Report, idx: SourceIndex) -> None:
 						owner = f.cls.qualname
 						if base in ('cls', f.cls.name) and attr in class_containers.get(owner, set()):
 							r.violate(f'{rel}:{q}:mutates {owner}.{attr}', (rel, n.lineno), f'{q} mutates the class-level container {owner}.{attr}: shared by every instance for the life of the process', unparse(n)[:100])
+						elif base == 'self' and attr in class_containers.get(owner, set()):
+							# `self.x[k] = v` writes into the CLASS attribute unless the instance has bound its own x first (in __init__ / on every path before)
+							rebound = any(isinstance(a_, (ast.Assign, ast.AnnAssign)) and getattr(a_, 'value', None) is not None and any(isinstance(t_, ast.Attribute) and isinstance(t_.value, ast.Name) and t_.value.id == 'self' and t_.attr == attr for t_ in (a_.targets if isinstance(a_, ast.Assign) else [a_.target])) for defs_ in f.cls.methods.values() for g_ in defs_ for a_ in walk_no_nested(g_.node))
+							if not rebound:
+								r.violate(f'{rel}:{q}:mutates {owner}.{attr}', (rel, n.lineno), f'{q} writes into `self.{attr}`, which no method ever binds on the instance: it is the container created in the class body ({owner}.{attr}), shared by every instance for the life of the process, so what one application object memoised (file hashes, mtimes) answers for the next one', unparse(n)[:100])
 			# mutable defaults
 			a = f.node.args
 			pos = a.posonlyargs + a.args
@@ -356,6 +361,19 @@ def rule_d(rep: Report, idx: SourceIndex) -> None:
 			elif s.endswith('__procedure.exec'):
 				seq.append((n.lineno, 'exec'))
 	r.check([k for _, k in sorted(seq)] == ['push', 'exec', 'pop'], 'transpile-balanced', t.where, f'transpile must push, exec, pop exactly once each: {sorted(seq)}')
+	# the pushed frame belongs to THIS transpile: a new, empty list. A frame that aliases an existing one (the caller's, a root frame) collects the
+	# dependencies of every module transpiled in the process, so the includes of a module depend on which modules were transpiled before it
+	from vlib.stores import is_fresh
+	for n in walk_no_nested(t.node):
+		if isinstance(n, ast.Call) and isinstance(n.func, ast.Attribute) and unparse(n.func).endswith('__stack_on_depends.append') and n.args:
+			a0 = n.args[0]
+			r.check(isinstance(a0, (ast.List, ast.Tuple)) and not a0.elts or (is_fresh(a0) and not isinstance(a0, ast.BinOp)), 'transpile-frame-fresh', (m.relpath, n.lineno), f'transpile pushes `{unparse(a0)[:80]}` as its dependency frame: not a new empty list. A frame shared with an earlier transpile (or a root frame) accumulates the includes reported for other modules: `run -f` (all modules in one process) and an incremental run (changed modules only) then write different files', unparse(n)[:120])
+	init = m.func('Py2Cpp.__init__')
+	for n in walk_no_nested(init.node):
+		if isinstance(n, (ast.Assign, ast.AnnAssign)) and getattr(n, 'value', None) is not None:
+			for t_ in (n.targets if isinstance(n, ast.Assign) else [n.target]):
+				if unparse(t_).endswith('__stack_on_depends'):
+					r.check(isinstance(n.value, ast.List) and not n.value.elts, 'stack-starts-empty', (m.relpath, n.lineno), f'the dependency stack starts as `{unparse(n.value)[:40]}`: a frame that exists before the first transpile is shared by every transpile that reads the top of the stack', unparse(n)[:100])
 	ov = m.func('Py2Cpp.__on_view_depends')
 	frames = [n for b in closure_fi(ov) for n in nodes(b, ast.Subscript) if unparse(n.value) == 'self.__stack_on_depends']
 	r.check(bool(frames) and all(unparse(n.slice) == '-1' for n in frames), 'depends-top-frame', ov.where, 'view dependency events no longer go to the top frame of the dependency stack')
